@@ -61,6 +61,7 @@ type Config struct {
 	ArmedCrashes                                                            bool // crash before the k-th durable write instead of "now"
 	Partition                                                               bool
 	DelayPct, DelayMax                                                      int    // slow links: share of (artefact, receiver) pairs held back, and for at most how many steps
+	BigTx                                                                   bool   // some transactions are several KB (WAL records beyond 4096 bytes)
 	Attack                                                                  string // "split": a coordinated equivocation attack (see attack.go)
 	Sides                                                                   []int  // split attack: side (0/1) of every validator id
 	ValChanges                                                              bool
